@@ -293,6 +293,7 @@ class World:
         "overwrite", "overwrite-shorter", "overwrite-other-kind", "torn-file-load", "semantic-compared", "dict-roundtrip",
         "set-roundtrip", "custom-gate", "wrapper-depth>=3", "indexed-symbol", "sympy-named-symbol", "empty-circuit",
         "idle-qubits", "custom-gate-alt-definition", "numeric-literal-named-symbol", "external-write", "via-handle", "via-bytes", "via-pathlike", "float-param", "exp-wrapper", "pow-wrapper",
+        "positioned-handle-save",
     ]
 
     # ------------------------------------------------------------ generation
@@ -379,6 +380,13 @@ class World:
             elif k < 0.8:
                 s = {"op": "load", "args": {"kind": r.choice(["circuit", "circuitset"]), "path": path, "via": r.choice(ALL_VIAS)}}
                 f = self._fault(r, cfg, LOAD_FAULTS)
+                if f:
+                    s["fault"] = f
+            elif k < 0.84:
+                kind, val = self._gen_value(r, cfg)
+                s = {"op": "save_after_header", "args": {"kind": kind, "value": val, "path": f"/d/own{r.randrange(2)}.txt",
+                                                         "header": r.choice(["# run 17\n", "HDR\n", "{\"meta\": 1}\n", "x"])}}
+                f = self._fault(r, cfg, [x for x in SAVE_FAULTS if x not in ("eacces", "enoent", "emfile")])
                 if f:
                     s["fault"] = f
             elif k < 0.9:
@@ -511,6 +519,11 @@ class World:
                 after = len(store.fs.files.get(a["path"], b""))
                 if before and after < before:
                     ctx.probe("overwrite-shorter")
+            return
+        if op == "save_after_header":
+            out = st["store"].save_after_header(ctx, a["kind"], value, a["path"], a["header"], step.get("fault"))
+            if out == "ok":
+                ctx.nontrivial = True
             return
         if op == "write_text":
             S = st["S"]
